@@ -22,7 +22,8 @@ Definition hexval (c : ascii) : option N :=
   else if andb (N.leb 65 n) (N.leb n 70) then Some (n - 55)%N
   else None.
 
-Definition rev_string (l : list ascii) : string := string_of_list_ascii (rev l).
+(* rev_append: linear (List.rev extracts to the quadratic rev l' ++ [x]); whole program texts pass through here *)
+Definition rev_string (l : list ascii) : string := string_of_list_ascii (rev_append l []).
 
 (* tokenizer: mode 0 = between tokens, 1 = in atom, 2 = in string *)
 Fixpoint tok_str (s : list ascii) (acc : list ascii) : option (string * list ascii) :=
